@@ -57,9 +57,28 @@ Fixpoint run_model (s : cstate) (steps : list obs) : bool :=
       && inv_b s' && run_model s' rest
   end.
 
+(** "a refused report leads to exactly one follow-up dial": a Resync dial made by a handler (not by
+    the schedule's own dial step) needs the node's resync flag set before the step and finds it
+    cleared afterwards, and there is at most one per step and node *)
+Fixpoint resync_rule (ph pl : bool) (steps : list obs) : bool :=
+  match steps with
+  | [] => true
+  | o :: rest =>
+      let own x := match o_trans o with TDial y 3 => if Bool.eqb x y then 1%nat else 0%nat | _ => 0%nat end in
+      let made x := (length (filter (fun d => Bool.eqb (fst d) x && (snd d =? 3)) (o_new_dials o)) - own x)%nat in
+      let ok x before after :=
+        match made x with
+        | O => true
+        | S O => before && negb after
+        | _ => false
+        end in
+      ok true ph (n_resync (o_hi o)) && ok false pl (n_resync (o_lo o))
+      && resync_rule (n_resync (o_hi o)) (n_resync (o_lo o)) rest
+  end.
+
 Definition check (c : case) : N :=
   let m1 := run_model cinit (c_steps c) in
-  let m2 := c_notfound_ok c
+  let m2 := c_notfound_ok c && resync_rule false false (c_steps c)
             && forallb (fun o => (o_in_progress o <=? 1)
                                  && (negb (o_in_flight o =? 0) || (is_idle (o_hi o) && is_idle (o_lo o)))) (c_steps c) in
   bit (negb m1) 1 + bit (negb m2) 2.
